@@ -14,8 +14,8 @@ CLAIMS = {
     "C03": ("macx+thrx", "every call sequence (depth 5/6) over 3 keys x 2 functions sharing key strings for all unlimited functions (incl. bodies that leave through return / ?): executions = distinct tuples; plus every schedule (preemption bound 2/3, both rwlock policies) of 2-3 concurrent callers: nothing runs after a storing call returned", "§7 C03"),
     "C04": ("seqx+macx+thrx", "explicit-state BFS over the real cache engines (all three flavours x six policies x limits x ttl x memory), every random victim enumerated; "
                     "monitor: size <= limit after every operation and exactly the required number of removals per store; the same monitor on the key listing of generated functions; plus every schedule (preemption bound 2/3) of two or three concurrent stores: the limit holds once every caller has returned", "§7 C04"),
-    "C05": ("seqx+macx", "explicit-state BFS with values of seven owned-heap types and four footprints (one larger than the bound); monitor computes footprints with its own rule and "
-                    "demands total <= max_memory, oversized values displace nothing, removals are explained by memory pressure or the entry limit; L1 functions with max_memory", "§7 C05"),
+    "C05": ("seqx+macx+thrx", "explicit-state BFS with values of seven owned-heap types and four footprints (one larger than the bound); monitor computes footprints with its own rule and "
+                    "demands total <= max_memory, oversized values displace nothing, removals are explained by memory pressure or the entry limit; L1 functions with max_memory; plus every schedule (preemption bound 2/3) of concurrent stores on memory-bounded functions and engines: the budget holds once every caller has returned, and the engine-level states are judged by sequential equivalence", "§7 C05, §5.3b"),
     "C06": ("seqx+macx", "explicit-state BFS under a frozen virtual clock with 1 s (sync) / 0.5 s (async) ticks, ages hit T-1, T, T+1 exactly; monitor: expired entries are never served and are purged, "
                     "unexpired ones are served, purged entries stop occupying capacity; L1 functions with ttl", "§7 C06"),
     "C07": ("seqx+thrx", "explicit-state BFS to closure for FIFO and LRU under entry and memory pressure; monitor: victims form a prefix of the ghost store order / last-use order; plus every schedule (preemption bound 2/3) of engine-level races at a full cache: the state the threads leave must behave, over every continuation of 4 further operations, like the state some sequential order of the same operations leaves (the implementation run sequentially is the reference)", "§7 C07, §5.3b"),
@@ -24,7 +24,7 @@ CLAIMS = {
     "C10": ("macx+thrx", "history enumeration over 36 cache_if functions (incl. with ttl, with invalidate_on, with both and a Result) with every accept/reject script: consulted once per execution with that call's key and result, verdict decides storage; plus every schedule (preemption bound 2/3) and every verdict of two or three concurrent callers: one consultation per execution, cached iff some execution was accepted", "§7 C10"),
     "C11": ("macx+thrx", "history enumeration over 36 invalidate_on functions (limits none/1/2, ttl, max_memory) with versioned bodies and every verdict script: stale entries never served, refreshed value replaces the stale one and is served next; plus every schedule (preemption bound 2/3) and every verdict of two or three concurrent callers: the value served is exactly the value shown to invalidate_on in that call", "§7 C11"),
     "C12": ("macx+thrx", "history enumeration over groups covering all 128 metadata assignments (tags/events/dependencies subsets of {x,y}, sync and async): every by_tag/by_event/by_dependency/invalidate_cache request incl. undeclared names; count and emptied caches compared with the metadata; plus every schedule (preemption bound 2/3) of two or three group invalidations racing with each other and with calls: counts stay exact", "§7 C12"),
-    "C13": ("macx", "history enumeration with invalidate_with / invalidate_all_with for key subsets: exactly the matching keys go, bystanders untouched, and the C04-type monitors keep running after the invalidation", "§7 C13"),
+    "C13": ("macx+thrx", "history enumeration with invalidate_with / invalidate_all_with for key subsets: exactly the matching keys go, bystanders untouched, and the C04-type monitors keep running after the invalidation; plus every schedule (preemption bound 2/3) of a lookup or a store overlapping with an invalidation of the same key, followed by a sequential continuation that pins the least-recently-used order exactly", "§7 C13, §7 C18"),
     "C14": ("thrx+macx+shapex", "every interleaving (operation-boundary granularity, no effective preemption bound) of 2-4 real OS threads calling thread-scope functions of every policy / limit, compared with each thread's program run alone on a fresh thread; "
                     "any dependence of a schedule on earlier executions (fresh threads each time) is reported as state outliving its thread; plus global/async drivers: what one thread stored every other thread is served; plus every call history of depth 5-6 with every assignment of its calls to 2-3 long-lived OS threads, each thread's calls compared with the same calls on a thread running alone; plus every signature shape with every argument tuple (incl. long arguments) stored by one OS thread and requested by a second: served without running the body", "§7 C14"),
     "C15": ("seqx+macx+thrx", "stats compared with the harness's own lookup/hit counts after every operation (L0 BFS, L1 histories incl. named caches and reset), and at quiescence for every schedule of concurrent callers with the counters' atomics as scheduling points", "§7 C15"),
